@@ -24,20 +24,42 @@ theorem evolve_extends [DecidableEq α] [Inhabited α] (hist : List (List α)) (
     (h2 : r ≤ init.length) (mode : Mode) (s s' : σ) (out : List (List α))
     (h : evolveFixed hist T rule r mode s = .ok (out, s')) :
     ∃ new, out = hist ++ new ∧ new.length = T - 1 ∧ ∀ row ∈ new, row.length = init.length := by
-  sorry
+  unfold evolveFixed at h
+  rw [hlast] at h
+  simp only at h
+  split at h
+  · cases h
+  · split at h
+    · cases h
+    · simp only [Except.ok.injEq, Prod.mk.injEq] at h
+      exact ⟨(fixedLoop mode rule r (T - 1) 1 init Caches.empty s).1, h.1.symm,
+        fixedLoop_length mode rule r (T - 1) 1 init Caches.empty s,
+        rowlen_fixedLoop mode rule r h1 (T - 1) 1 init Caches.empty s h2⟩
 
 /-- **Only the last given row influences the new rows.** -/
 theorem evolve_last_only [DecidableEq α] [Inhabited α] (hist hist' : List (List α))
     (hl : hist.getLast? = hist'.getLast?) (T : Nat) (rule : Rule1 σ α) (r : Nat) (mode : Mode) (s : σ) :
     (evolveFixed hist T rule r mode s).map (fun p => (p.1.drop hist.length, p.2))
       = (evolveFixed hist' T rule r mode s).map (fun p => (p.1.drop hist'.length, p.2)) := by
-  sorry
+  unfold evolveFixed
+  rw [← hl]
+  cases hist.getLast? with
+  | none => rfl
+  | some init =>
+    simp only
+    split
+    · rfl
+    · split
+      · rfl
+      · simp [Except.map]
 
 /-- `T = 0` is rejected (the guard `T ≥ 1` of the property). -/
 theorem evolve_T0 [DecidableEq α] [Inhabited α] (hist : List (List α)) (init : List α)
     (hlast : hist.getLast? = some init) (rule : Rule1 σ α) (r : Nat) (mode : Mode) (s : σ) :
     evolveFixed hist 0 rule r mode s = .error .IndexError := by
-  sorry
+  unfold evolveFixed
+  rw [hlast]
+  simp
 
 /-- **Split law, memoization off, any stateful rule that ignores the step number**: evolving for `T1`
     steps and continuing the result for `T2` steps (rule state carried over) equals `T1+T2-1` steps at once. -/
@@ -46,7 +68,18 @@ theorem evolve_split_plain [DecidableEq α] [Inhabited α] (rule : Rule1 σ α) 
     (hT1 : 1 ≤ T1) (hT2 : 1 ≤ T2) (r : Nat) (h1 : 1 ≤ r) (h2 : r ≤ init.length) (s s1 : σ)
     (mid : List (List α)) (hmid : evolveFixed hist T1 rule r .plain s = .ok (mid, s1)) :
     evolveFixed mid T2 rule r .plain s1 = evolveFixed hist (T1 + T2 - 1) rule r .plain s := by
-  sorry
+  have hrun := C01.evolveFixed_plain_eq_spec hist init hlast T1 hT1 rule r h1 h2 s
+  rw [hrun] at hmid
+  simp only [Except.ok.injEq, Prod.mk.injEq] at hmid
+  obtain ⟨hmid1, hs1⟩ := hmid
+  subst hmid1 hs1
+  rw [C01.evolveFixed_plain_eq_spec _ _ (getLast?_append_some hist _ init hlast) T2 hT2 rule r h1
+    (by rw [run_getLast_length]; exact h2)]
+  rw [C01.evolveFixed_plain_eq_spec hist init hlast (T1 + T2 - 1) (by omega) rule r h1 h2 s]
+  have e : T1 + T2 - 1 - 1 = (T1 - 1) + (T2 - 1) := by omega
+  rw [e, run_add]
+  rw [run_timeFree rule htf r (T2 - 1) (1 + (T1 - 1)) 1]
+  simp [List.append_assoc]
 
 /-- **Split law in every memoize mode** for rules whose result depends only on the neighbourhood:
     the rows of the continued evolution equal those of the evolution at once (the two calls may even
@@ -58,6 +91,15 @@ theorem evolve_split_pure [DecidableEq α] [Inhabited α] (rule : Rule1 σ α) (
     (mid : List (List α)) (hmid : evolveFixed hist T1 rule r m1 s = .ok (mid, s1)) :
     (evolveFixed mid T2 rule r m2 s2).map Prod.fst
       = (evolveFixed hist (T1 + T2 - 1) rule r m s).map Prod.fst := by
-  sorry
+  have hA := C03.evolveFixed_rows_pure rule f hp m1 hm1 hist init hlast T1 hT1 r h1 h2 s
+  rw [hmid] at hA
+  simp only [Except.map, Except.ok.injEq] at hA
+  subst hA
+  rw [C03.evolveFixed_rows_pure rule f hp m2 hm2 _ _ (getLast?_append_some hist _ init hlast) T2 hT2
+    r h1 (by rw [pureRun_getLast_length]; exact h2) s2]
+  rw [C03.evolveFixed_rows_pure rule f hp m hm hist init hlast (T1 + T2 - 1) (by omega) r h1 h2 s]
+  have e : T1 + T2 - 1 - 1 = (T1 - 1) + (T2 - 1) := by omega
+  rw [e, pureRun_add]
+  simp [List.append_assoc]
 
 end Cpl.C05
